@@ -9,6 +9,8 @@ CONSTANTS
   SaveAsSet = {"none", "file", "dir"}
   Modes = {}
   MayFail = FALSE
+  PoolSet = {FALSE}
+  AssembleMode = "index"
   MaxFaults = 0
 INVARIANT RoundTrip
 INVARIANT ErrorsPersisted
